@@ -163,6 +163,7 @@ type Path struct {
 	sched     *Sched
 	notes     []string
 	mapPerm   bool
+	unwind    int // loop bound stated by the harness (rt.Unwind), 0 = engine default
 	selectChoice bool
 	allocLimit int64
 	uuidCalls int
